@@ -79,6 +79,13 @@ func (s *sys) mkRec(r *rand.Rand, k, kind string, stale bool, bigVals bool) agg.
 		s.start[k] = 1000 + r.Intn(50)
 	}
 	rec.Start = s.start[k]
+	if !s.global {
+		// each reporting node has its own view of when the flow started
+		if _, ok := s.start[id]; !ok {
+			s.start[id] = s.start[k] - r.Intn(4)
+		}
+		rec.Start = s.start[id]
+	}
 	prevEnd := rec.Start
 	prevVals := []int{0, 0, 0, 0, 0, 0}
 	if ls != nil {
@@ -120,6 +127,11 @@ func (s *sys) forget(k string) {
 		}
 	}
 	delete(s.start, k)
+	for id := range s.start {
+		if strings.HasPrefix(id, k+"/") {
+			delete(s.start, id)
+		}
+	}
 }
 
 func (s *sys) ingest(rec agg.Rec) {
@@ -227,9 +239,9 @@ func main() {
 		f.Close()
 	}
 	// engine B: random histories
-	n := 150
+	n := 400
 	if thorough {
-		n = 2500
+		n = 4000
 	}
 	keys := []string{"k1", "k2", "k3", "k4", "k5", "k6"}
 	kinds := []string{"intra", "toext", "src", "dst", "deny", "reject"}
